@@ -271,9 +271,10 @@ Fixpoint rec_node (fn : fnet) (fuel : nat) (s : fstate) (cur : nat) : fstate * r
         let s3 := if (0 <? f_bias fn)%nat
                   then set_bp s2 cur (fadd NF (bpF s2 cur) (getF NF (f_biases fn) cur)) else s2 in
         let s4 := set_inact (set_done s3 cur true) cur false in
+        (* the activation is stored and the scratch sum cleared (a following forward step starts from zero) *)
         match act (nth cur (f_acts fn) 0) (bpF s4 cur) with
-        | Ok v => (set_sig s4 cur v, Ok true)
-        | e => (set_sig s4 cur (fneginf NF), res_cast e (Ok true))
+        | Ok v => (set_bp (set_sig s4 cur v) cur (fzero NF), Ok true)
+        | e => (set_bp (set_sig s4 cur (fneginf NF)) cur (fzero NF), res_cast e (Ok true))
         end
       | (s2, e) => (s2, e)
       end
